@@ -377,6 +377,7 @@ PROPS['C07'] = {
     'kani_extra': ['--no-memory-safety-checks', '--no-overflow-checks', '--no-assertion-reach-checks'],
     'kani': [
         ('geo', 'c07.rs', r'^c07_k_(point_point_row|line_string_contains_point_axis)$', 'bounded', 'quick'),
+        ('geo', 'c07.rs', r'^c07_k_line_linestring_last_vertex$', 'bounded', 'quick'),
         ('geo', 'c02.rs', r'^c02_k_(line_coord|line_line)$', 'complete', 'quick'),
         ('geo', 'c07.rs', r'^c07_k_point_axis_line$', 'bounded', 'thorough'),
     ],
